@@ -251,6 +251,309 @@ impl<Effect, Event> KeyValue<Effect, Event> {
 //@end
 }
 
+
+// ------------------------------------------------------------------ the capability API (lib.rs): async, rule X17
+// The five private `async fn` helpers, the five `*_async` methods and the five event-sending methods
+// are checked as their SYNCHRONOUS PROJECTION (rule X17): `async fn` -> `fn`, `.await` erased, an
+// `async move { .. }` block read as the block it runs when polled to completion, and the awaited
+// shell request replaced by the assumed `request_from_shell` below, which records the operation in
+// a ghost log and returns a universally quantified answer of the operation's kind. What X17 drops:
+// rustc's future state machine (trusted compiler), WHEN the pieces run (unit Q decides scheduling),
+// cancellation at an await point. What it keeps: every statement, branch and argument of the body.
+pub mod capability_api {
+    use super::*;
+
+    pub tracked struct KW {
+        /// operations handed to the shell by this capability, oldest first
+        pub ghost emitted: Seq<KeyValueOperation>,
+        /// the shell's answers, in the order they were awaited
+        pub ghost answers: Seq<KeyValueResult>,
+        /// events sent back to the app
+        pub ghost events: Seq<EvId>,
+    }
+    /// identity of an app event value (the event type is the app's: opaque)
+    pub struct EvId { pub id: int }
+    pub uninterp spec fn ev_id<Ev>(e: Ev) -> EvId;
+
+    /// the shell answers a request in the operation's own kind, or with an error (a wrong kind
+    /// panics in unwrap_*: Kani k_wrong_kind_reject) - ASSUMED about the shell
+    pub open spec fn in_kind(op: KeyValueOperation, r: KeyValueResult) -> bool {
+        r is Err || match op {
+            KeyValueOperation::Get { .. } => r->response is Get,
+            KeyValueOperation::Set { .. } => r->response is Set,
+            KeyValueOperation::Delete { .. } => r->response is Delete,
+            KeyValueOperation::Exists { .. } => r->response is Exists,
+            KeyValueOperation::ListKeys { .. } => r->response is ListKeys,
+        }
+    }
+
+    #[verifier::external_body]
+    #[verifier::accept_recursive_types(Op)]
+    #[verifier::accept_recursive_types(Ev)]
+    pub struct CapabilityContext<Op, Ev> { _p: core::marker::PhantomData<(Op, Ev)> }
+
+    impl<Ev> CapabilityContext<KeyValueOperation, Ev> {
+        // ASSUMED (crux_core/src/capability/mod.rs, async): awaiting it hands exactly this operation
+        // to the shell once and yields the shell's answer, whatever that is
+        #[verifier::external_body]
+        pub fn request_from_shell(&self, Tracked(w): Tracked<&mut KW>, operation: KeyValueOperation) -> (r: KeyValueResult)
+            ensures
+                final(w).emitted == old(w).emitted.push(operation),
+                final(w).answers == old(w).answers.push(r),
+                final(w).events == old(w).events,
+                in_kind(operation, r),
+        { unimplemented!() }
+        // ASSUMED (unit Q proves the real one: CapabilityContext::update_app)
+        #[verifier::external_body]
+        pub fn update_app(&self, Tracked(w): Tracked<&mut KW>, event: Ev)
+            ensures
+                final(w).events == old(w).events.push(ev_id(event)),
+                final(w).emitted == old(w).emitted,
+                final(w).answers == old(w).answers,
+        { unimplemented!() }
+        // X17: the task handed to spawn has, in the projection, already run to its end
+        pub fn spawn(&self, _task: ()) {}
+    }
+    impl<Ev> Clone for CapabilityContext<KeyValueOperation, Ev> {
+        #[verifier::external_body]
+        fn clone(&self) -> (r: Self) { unimplemented!() }
+    }
+
+//@extract id=cap.KeyValue file=crux_kv/src/lib.rs item="struct KeyValue"
+//@end
+
+//@extract id=capability::get file=crux_kv/src/lib.rs item="fn get" props=C17
+//@expect async fn get<Ev: 'static>( context: &CapabilityContext<KeyValueOperation, Ev>, key: String, ) -> Result<Option<Vec<u8>>, KeyValueError>
+//@sig fn get<Ev: 'static>(Tracked(w): Tracked<&mut KW>, context: &CapabilityContext<KeyValueOperation, Ev>, key: String) -> (r: Result<Option<Vec<u8>>, KeyValueError>)
+//@contract
+        ensures
+            final(w).emitted == old(w).emitted.push(KeyValueOperation::Get { key: key }), // [C17/capability-get/exactly-one-operation-of-its-kind-carrying-the-arguments-unchanged]
+            final(w).answers.len() == old(w).answers.len() + 1, // [C17/capability-get/the-shell-is-asked-once]
+            call_ensures(KeyValueResult::unwrap_get, (final(w).answers.last(),), r), // [C17/capability-get/the-answer-is-mapped-by-unwrap_get]
+            final(w).events == old(w).events,
+//@rule X17.await * s/\s*\.await\b//
+//@rule X6.world * s/\.request_from_shell\(/.request_from_shell(Tracked(w), /
+//@end
+
+//@extract id=capability::set file=crux_kv/src/lib.rs item="fn set" props=C17
+//@expect async fn set<Ev: 'static>( context: &CapabilityContext<KeyValueOperation, Ev>, key: String, value: Vec<u8>, ) -> Result<Option<Vec<u8>>, KeyValueError>
+//@sig fn set<Ev: 'static>(Tracked(w): Tracked<&mut KW>, context: &CapabilityContext<KeyValueOperation, Ev>, key: String, value: Vec<u8>) -> (r: Result<Option<Vec<u8>>, KeyValueError>)
+//@contract
+        ensures
+            final(w).emitted == old(w).emitted.push(KeyValueOperation::Set { key: key, value: value }), // [C17/capability-set/exactly-one-operation-of-its-kind-carrying-the-arguments-unchanged]
+            final(w).answers.len() == old(w).answers.len() + 1, // [C17/capability-set/the-shell-is-asked-once]
+            call_ensures(KeyValueResult::unwrap_set, (final(w).answers.last(),), r), // [C17/capability-set/the-answer-is-mapped-by-unwrap_set]
+            final(w).events == old(w).events,
+//@rule X17.await * s/\s*\.await\b//
+//@rule X6.world * s/\.request_from_shell\(/.request_from_shell(Tracked(w), /
+//@end
+
+//@extract id=capability::delete file=crux_kv/src/lib.rs item="fn delete" props=C17
+//@expect async fn delete<Ev: 'static>( context: &CapabilityContext<KeyValueOperation, Ev>, key: String, ) -> Result<Option<Vec<u8>>, KeyValueError>
+//@sig fn delete<Ev: 'static>(Tracked(w): Tracked<&mut KW>, context: &CapabilityContext<KeyValueOperation, Ev>, key: String) -> (r: Result<Option<Vec<u8>>, KeyValueError>)
+//@contract
+        ensures
+            final(w).emitted == old(w).emitted.push(KeyValueOperation::Delete { key: key }), // [C17/capability-delete/exactly-one-operation-of-its-kind-carrying-the-arguments-unchanged]
+            final(w).answers.len() == old(w).answers.len() + 1, // [C17/capability-delete/the-shell-is-asked-once]
+            call_ensures(KeyValueResult::unwrap_delete, (final(w).answers.last(),), r), // [C17/capability-delete/the-answer-is-mapped-by-unwrap_delete]
+            final(w).events == old(w).events,
+//@rule X17.await * s/\s*\.await\b//
+//@rule X6.world * s/\.request_from_shell\(/.request_from_shell(Tracked(w), /
+//@end
+
+//@extract id=capability::exists file=crux_kv/src/lib.rs item="fn exists" props=C17
+//@expect async fn exists<Ev: 'static>( context: &CapabilityContext<KeyValueOperation, Ev>, key: String, ) -> Result<bool, KeyValueError>
+//@sig fn r#exists<Ev: 'static>(Tracked(w): Tracked<&mut KW>, context: &CapabilityContext<KeyValueOperation, Ev>, key: String) -> (r: Result<bool, KeyValueError>)
+//@contract
+        ensures
+            final(w).emitted == old(w).emitted.push(KeyValueOperation::Exists { key: key }), // [C17/capability-exists/exactly-one-operation-of-its-kind-carrying-the-arguments-unchanged]
+            final(w).answers.len() == old(w).answers.len() + 1, // [C17/capability-exists/the-shell-is-asked-once]
+            call_ensures(KeyValueResult::unwrap_exists, (final(w).answers.last(),), r), // [C17/capability-exists/the-answer-is-mapped-by-unwrap_exists]
+            final(w).events == old(w).events,
+//@rule X17.await * s/\s*\.await\b//
+//@rule X6.world * s/\.request_from_shell\(/.request_from_shell(Tracked(w), /
+//@end
+
+//@extract id=capability::list_keys file=crux_kv/src/lib.rs item="fn list_keys" props=C17
+//@expect async fn list_keys<Ev: 'static>( context: &CapabilityContext<KeyValueOperation, Ev>, prefix: String, cursor: u64, ) -> Result<(Vec<String>, u64), KeyValueError>
+//@sig fn list_keys<Ev: 'static>(Tracked(w): Tracked<&mut KW>, context: &CapabilityContext<KeyValueOperation, Ev>, prefix: String, cursor: u64) -> (r: Result<(Vec<String>, u64), KeyValueError>)
+//@contract
+        ensures
+            final(w).emitted == old(w).emitted.push(KeyValueOperation::ListKeys { prefix: prefix, cursor: cursor }), // [C17/capability-list_keys/exactly-one-operation-of-its-kind-carrying-the-arguments-unchanged]
+            final(w).answers.len() == old(w).answers.len() + 1, // [C17/capability-list_keys/the-shell-is-asked-once]
+            call_ensures(KeyValueResult::unwrap_list_keys, (final(w).answers.last(),), r), // [C17/capability-list_keys/the-answer-is-mapped-by-unwrap_list_keys]
+            final(w).events == old(w).events,
+//@rule X17.await * s/\s*\.await\b//
+//@rule X6.world * s/\.request_from_shell\(/.request_from_shell(Tracked(w), /
+//@end
+
+impl<Ev> KeyValue<Ev>
+where
+    Ev: 'static,
+{
+
+//@extract id=capability::get_async file=crux_kv/src/lib.rs within="impl<Ev> KeyValue<Ev>" item="fn get_async" props=C17
+//@expect pub async fn get_async(&self, key: String) -> Result<Option<Vec<u8>>, KeyValueError>
+//@sig fn get_async(&self, Tracked(w): Tracked<&mut KW>, key: String) -> (r: Result<Option<Vec<u8>>, KeyValueError>)
+//@contract
+        ensures
+            final(w).emitted == old(w).emitted.push(KeyValueOperation::Get { key: key }), // [C17/capability-get_async/exactly-one-operation-of-its-kind-carrying-the-arguments-unchanged]
+            final(w).answers.len() == old(w).answers.len() + 1, // [C17/capability-get_async/the-shell-is-asked-once]
+            call_ensures(KeyValueResult::unwrap_get, (final(w).answers.last(),), r), // [C17/capability-get_async/the-answer-is-mapped-by-unwrap_get]
+            final(w).events == old(w).events,
+//@rule X17.await * s/\s*\.await\b//
+//@rule X6.world * s/(?<![.\w])(get|set|delete|exists|list_keys)\(/\1(Tracked(w), /
+//@rule X18.keyword * s/(?<![.\w#])exists\(Tracked/r#exists(Tracked/
+//@end
+
+//@extract id=capability::get(event) file=crux_kv/src/lib.rs within="impl<Ev> KeyValue<Ev>" item="fn get" props=C17
+//@expect pub fn get<F>(&self, key: String, make_event: F) where F: FnOnce(Result<Option<Vec<u8>>, KeyValueError>) -> Ev + Send + Sync + 'static,
+//@sig fn get<F>(&self, Tracked(w): Tracked<&mut KW>, key: String, make_event: F) where F: FnOnce(Result<Option<Vec<u8>>, KeyValueError>) -> Ev + Send + Sync + 'static,
+//@contract
+        requires
+            forall|x: Result<Option<Vec<u8>>, KeyValueError>| call_requires(make_event, (x,)),
+        ensures
+            final(w).emitted == old(w).emitted.push(KeyValueOperation::Get { key: key }), // [C17/capability-get(event)/exactly-one-operation-of-its-kind-carrying-the-arguments-unchanged]
+            final(w).answers.len() == old(w).answers.len() + 1, // [C17/capability-get(event)/the-shell-is-asked-once]
+            final(w).events.len() == old(w).events.len() + 1, // [C17/capability-get(event)/exactly-one-event-for-the-app]
+            exists|u: Result<Option<Vec<u8>>, KeyValueError>, e: Ev| #![auto] call_ensures(KeyValueResult::unwrap_get, (final(w).answers.last(),), u) && call_ensures(make_event, (u,), e) && final(w).events.last() == ev_id(e), // [C17/capability-get(event)/the-event-is-make_event-of-the-answer-mapped-by-unwrap_get]
+//@rule X17.await * s/\s*\.await\b//
+//@rule X17.async-block 1 s/async move \{/{/
+//@rule X6.world * s/(?<![.\w])(get|set|delete|exists|list_keys)\(/\1(Tracked(w), /
+//@rule X18.keyword * s/(?<![.\w#])exists\(Tracked/r#exists(Tracked/
+//@rule X6.world * s/\.update_app\(/.update_app(Tracked(w), /
+//@end
+
+//@extract id=capability::set_async file=crux_kv/src/lib.rs within="impl<Ev> KeyValue<Ev>" item="fn set_async" props=C17
+//@expect pub async fn set_async( &self, key: String, value: Vec<u8>, ) -> Result<Option<Vec<u8>>, KeyValueError>
+//@sig fn set_async(&self, Tracked(w): Tracked<&mut KW>, key: String, value: Vec<u8>) -> (r: Result<Option<Vec<u8>>, KeyValueError>)
+//@contract
+        ensures
+            final(w).emitted == old(w).emitted.push(KeyValueOperation::Set { key: key, value: value }), // [C17/capability-set_async/exactly-one-operation-of-its-kind-carrying-the-arguments-unchanged]
+            final(w).answers.len() == old(w).answers.len() + 1, // [C17/capability-set_async/the-shell-is-asked-once]
+            call_ensures(KeyValueResult::unwrap_set, (final(w).answers.last(),), r), // [C17/capability-set_async/the-answer-is-mapped-by-unwrap_set]
+            final(w).events == old(w).events,
+//@rule X17.await * s/\s*\.await\b//
+//@rule X6.world * s/(?<![.\w])(get|set|delete|exists|list_keys)\(/\1(Tracked(w), /
+//@rule X18.keyword * s/(?<![.\w#])exists\(Tracked/r#exists(Tracked/
+//@end
+
+//@extract id=capability::set(event) file=crux_kv/src/lib.rs within="impl<Ev> KeyValue<Ev>" item="fn set" props=C17
+//@expect pub fn set<F>(&self, key: String, value: Vec<u8>, make_event: F) where F: FnOnce(Result<Option<Vec<u8>>, KeyValueError>) -> Ev + Send + Sync + 'static,
+//@sig fn set<F>(&self, Tracked(w): Tracked<&mut KW>, key: String, value: Vec<u8>, make_event: F) where F: FnOnce(Result<Option<Vec<u8>>, KeyValueError>) -> Ev + Send + Sync + 'static,
+//@contract
+        requires
+            forall|x: Result<Option<Vec<u8>>, KeyValueError>| call_requires(make_event, (x,)),
+        ensures
+            final(w).emitted == old(w).emitted.push(KeyValueOperation::Set { key: key, value: value }), // [C17/capability-set(event)/exactly-one-operation-of-its-kind-carrying-the-arguments-unchanged]
+            final(w).answers.len() == old(w).answers.len() + 1, // [C17/capability-set(event)/the-shell-is-asked-once]
+            final(w).events.len() == old(w).events.len() + 1, // [C17/capability-set(event)/exactly-one-event-for-the-app]
+            exists|u: Result<Option<Vec<u8>>, KeyValueError>, e: Ev| #![auto] call_ensures(KeyValueResult::unwrap_set, (final(w).answers.last(),), u) && call_ensures(make_event, (u,), e) && final(w).events.last() == ev_id(e), // [C17/capability-set(event)/the-event-is-make_event-of-the-answer-mapped-by-unwrap_set]
+//@rule X17.await * s/\s*\.await\b//
+//@rule X17.async-block 1 s/async move \{/{/
+//@rule X6.world * s/(?<![.\w])(get|set|delete|exists|list_keys)\(/\1(Tracked(w), /
+//@rule X18.keyword * s/(?<![.\w#])exists\(Tracked/r#exists(Tracked/
+//@rule X6.world * s/\.update_app\(/.update_app(Tracked(w), /
+//@end
+
+//@extract id=capability::delete_async file=crux_kv/src/lib.rs within="impl<Ev> KeyValue<Ev>" item="fn delete_async" props=C17
+//@expect pub async fn delete_async(&self, key: String) -> Result<Option<Vec<u8>>, KeyValueError>
+//@sig fn delete_async(&self, Tracked(w): Tracked<&mut KW>, key: String) -> (r: Result<Option<Vec<u8>>, KeyValueError>)
+//@contract
+        ensures
+            final(w).emitted == old(w).emitted.push(KeyValueOperation::Delete { key: key }), // [C17/capability-delete_async/exactly-one-operation-of-its-kind-carrying-the-arguments-unchanged]
+            final(w).answers.len() == old(w).answers.len() + 1, // [C17/capability-delete_async/the-shell-is-asked-once]
+            call_ensures(KeyValueResult::unwrap_delete, (final(w).answers.last(),), r), // [C17/capability-delete_async/the-answer-is-mapped-by-unwrap_delete]
+            final(w).events == old(w).events,
+//@rule X17.await * s/\s*\.await\b//
+//@rule X6.world * s/(?<![.\w])(get|set|delete|exists|list_keys)\(/\1(Tracked(w), /
+//@rule X18.keyword * s/(?<![.\w#])exists\(Tracked/r#exists(Tracked/
+//@end
+
+//@extract id=capability::delete(event) file=crux_kv/src/lib.rs within="impl<Ev> KeyValue<Ev>" item="fn delete" props=C17
+//@expect pub fn delete<F>(&self, key: String, make_event: F) where F: FnOnce(Result<Option<Vec<u8>>, KeyValueError>) -> Ev + Send + Sync + 'static,
+//@sig fn delete<F>(&self, Tracked(w): Tracked<&mut KW>, key: String, make_event: F) where F: FnOnce(Result<Option<Vec<u8>>, KeyValueError>) -> Ev + Send + Sync + 'static,
+//@contract
+        requires
+            forall|x: Result<Option<Vec<u8>>, KeyValueError>| call_requires(make_event, (x,)),
+        ensures
+            final(w).emitted == old(w).emitted.push(KeyValueOperation::Delete { key: key }), // [C17/capability-delete(event)/exactly-one-operation-of-its-kind-carrying-the-arguments-unchanged]
+            final(w).answers.len() == old(w).answers.len() + 1, // [C17/capability-delete(event)/the-shell-is-asked-once]
+            final(w).events.len() == old(w).events.len() + 1, // [C17/capability-delete(event)/exactly-one-event-for-the-app]
+            exists|u: Result<Option<Vec<u8>>, KeyValueError>, e: Ev| #![auto] call_ensures(KeyValueResult::unwrap_delete, (final(w).answers.last(),), u) && call_ensures(make_event, (u,), e) && final(w).events.last() == ev_id(e), // [C17/capability-delete(event)/the-event-is-make_event-of-the-answer-mapped-by-unwrap_delete]
+//@rule X17.await * s/\s*\.await\b//
+//@rule X17.async-block 1 s/async move \{/{/
+//@rule X6.world * s/(?<![.\w])(get|set|delete|exists|list_keys)\(/\1(Tracked(w), /
+//@rule X18.keyword * s/(?<![.\w#])exists\(Tracked/r#exists(Tracked/
+//@rule X6.world * s/\.update_app\(/.update_app(Tracked(w), /
+//@end
+
+//@extract id=capability::exists_async file=crux_kv/src/lib.rs within="impl<Ev> KeyValue<Ev>" item="fn exists_async" props=C17
+//@expect pub async fn exists_async(&self, key: String) -> Result<bool, KeyValueError>
+//@sig fn exists_async(&self, Tracked(w): Tracked<&mut KW>, key: String) -> (r: Result<bool, KeyValueError>)
+//@contract
+        ensures
+            final(w).emitted == old(w).emitted.push(KeyValueOperation::Exists { key: key }), // [C17/capability-exists_async/exactly-one-operation-of-its-kind-carrying-the-arguments-unchanged]
+            final(w).answers.len() == old(w).answers.len() + 1, // [C17/capability-exists_async/the-shell-is-asked-once]
+            call_ensures(KeyValueResult::unwrap_exists, (final(w).answers.last(),), r), // [C17/capability-exists_async/the-answer-is-mapped-by-unwrap_exists]
+            final(w).events == old(w).events,
+//@rule X17.await * s/\s*\.await\b//
+//@rule X6.world * s/(?<![.\w])(get|set|delete|exists|list_keys)\(/\1(Tracked(w), /
+//@rule X18.keyword * s/(?<![.\w#])exists\(Tracked/r#exists(Tracked/
+//@end
+
+//@extract id=capability::exists(event) file=crux_kv/src/lib.rs within="impl<Ev> KeyValue<Ev>" item="fn exists" props=C17
+//@expect pub fn exists<F>(&self, key: String, make_event: F) where F: FnOnce(Result<bool, KeyValueError>) -> Ev + Send + Sync + 'static,
+//@sig fn r#exists<F>(&self, Tracked(w): Tracked<&mut KW>, key: String, make_event: F) where F: FnOnce(Result<bool, KeyValueError>) -> Ev + Send + Sync + 'static,
+//@contract
+        requires
+            forall|x: Result<bool, KeyValueError>| call_requires(make_event, (x,)),
+        ensures
+            final(w).emitted == old(w).emitted.push(KeyValueOperation::Exists { key: key }), // [C17/capability-exists(event)/exactly-one-operation-of-its-kind-carrying-the-arguments-unchanged]
+            final(w).answers.len() == old(w).answers.len() + 1, // [C17/capability-exists(event)/the-shell-is-asked-once]
+            final(w).events.len() == old(w).events.len() + 1, // [C17/capability-exists(event)/exactly-one-event-for-the-app]
+            exists|u: Result<bool, KeyValueError>, e: Ev| #![auto] call_ensures(KeyValueResult::unwrap_exists, (final(w).answers.last(),), u) && call_ensures(make_event, (u,), e) && final(w).events.last() == ev_id(e), // [C17/capability-exists(event)/the-event-is-make_event-of-the-answer-mapped-by-unwrap_exists]
+//@rule X17.await * s/\s*\.await\b//
+//@rule X17.async-block 1 s/async move \{/{/
+//@rule X6.world * s/(?<![.\w])(get|set|delete|exists|list_keys)\(/\1(Tracked(w), /
+//@rule X18.keyword * s/(?<![.\w#])exists\(Tracked/r#exists(Tracked/
+//@rule X6.world * s/\.update_app\(/.update_app(Tracked(w), /
+//@end
+
+//@extract id=capability::list_keys_async file=crux_kv/src/lib.rs within="impl<Ev> KeyValue<Ev>" item="fn list_keys_async" props=C17
+//@expect pub async fn list_keys_async( &self, prefix: String, cursor: u64, ) -> Result<(Vec<String>, u64), KeyValueError>
+//@sig fn list_keys_async(&self, Tracked(w): Tracked<&mut KW>, prefix: String, cursor: u64) -> (r: Result<(Vec<String>, u64), KeyValueError>)
+//@contract
+        ensures
+            final(w).emitted == old(w).emitted.push(KeyValueOperation::ListKeys { prefix: prefix, cursor: cursor }), // [C17/capability-list_keys_async/exactly-one-operation-of-its-kind-carrying-the-arguments-unchanged]
+            final(w).answers.len() == old(w).answers.len() + 1, // [C17/capability-list_keys_async/the-shell-is-asked-once]
+            call_ensures(KeyValueResult::unwrap_list_keys, (final(w).answers.last(),), r), // [C17/capability-list_keys_async/the-answer-is-mapped-by-unwrap_list_keys]
+            final(w).events == old(w).events,
+//@rule X17.await * s/\s*\.await\b//
+//@rule X6.world * s/(?<![.\w])(get|set|delete|exists|list_keys)\(/\1(Tracked(w), /
+//@rule X18.keyword * s/(?<![.\w#])exists\(Tracked/r#exists(Tracked/
+//@end
+
+//@extract id=capability::list_keys(event) file=crux_kv/src/lib.rs within="impl<Ev> KeyValue<Ev>" item="fn list_keys" props=C17
+//@expect pub fn list_keys<F>(&self, prefix: String, cursor: u64, make_event: F) where F: FnOnce(Result<(Vec<String>, u64), KeyValueError>) -> Ev + Send + Sync + 'static,
+//@sig fn list_keys<F>(&self, Tracked(w): Tracked<&mut KW>, prefix: String, cursor: u64, make_event: F) where F: FnOnce(Result<(Vec<String>, u64), KeyValueError>) -> Ev + Send + Sync + 'static,
+//@contract
+        requires
+            forall|x: Result<(Vec<String>, u64), KeyValueError>| call_requires(make_event, (x,)),
+        ensures
+            final(w).emitted == old(w).emitted.push(KeyValueOperation::ListKeys { prefix: prefix, cursor: cursor }), // [C17/capability-list_keys(event)/exactly-one-operation-of-its-kind-carrying-the-arguments-unchanged]
+            final(w).answers.len() == old(w).answers.len() + 1, // [C17/capability-list_keys(event)/the-shell-is-asked-once]
+            final(w).events.len() == old(w).events.len() + 1, // [C17/capability-list_keys(event)/exactly-one-event-for-the-app]
+            exists|u: Result<(Vec<String>, u64), KeyValueError>, e: Ev| #![auto] call_ensures(KeyValueResult::unwrap_list_keys, (final(w).answers.last(),), u) && call_ensures(make_event, (u,), e) && final(w).events.last() == ev_id(e), // [C17/capability-list_keys(event)/the-event-is-make_event-of-the-answer-mapped-by-unwrap_list_keys]
+//@rule X17.await * s/\s*\.await\b//
+//@rule X17.async-block 1 s/async move \{/{/
+//@rule X6.world * s/(?<![.\w])(get|set|delete|exists|list_keys)\(/\1(Tracked(w), /
+//@rule X18.keyword * s/(?<![.\w#])exists\(Tracked/r#exists(Tracked/
+//@rule X6.world * s/\.update_app\(/.update_app(Tracked(w), /
+//@end
+}
+} // mod capability_api
+
 } // verus!
 
 fn main() {}
